@@ -379,6 +379,11 @@ def apply(t, op):
             mp = {i: "same-name" for i in ids}
             if len(ids) < 2:
                 return Outcome(skipped="one id cannot collide")
+            if len(ids) >= 3 and sum(1 for k in op["mask"] if k) % 2:
+                # only the first and the last collide (not neighbours)
+                mp = {ids[0]: "same-name", ids[-1]: "same-name"}
+                if op["strict"]:
+                    mp.update({i: i for i in ids[1:-1]})
             try:
                 r = t.update_ids(mp, axis=op["axis"], strict=op["strict"],
                                  inplace=op["inplace"])
